@@ -74,6 +74,9 @@ func digestNode(n *Node) string {
 	for _, db := range dbs {
 		sb.WriteString(digestDB(db))
 	}
+	// who the node believes is connected to it as a replica (a request that was
+	// refused must not leave its sender registered: handoffs go to that list)
+	fmt.Fprintf(&sb, "subscribers=%d;", StreamSubscribers(n.Store))
 	return sb.String()
 }
 
@@ -530,5 +533,6 @@ func onlyNewEmptyDB(n *Node, before string) bool {
 	for _, db := range keep {
 		sb.WriteString(digestDB(db))
 	}
+	fmt.Fprintf(&sb, "subscribers=%d;", StreamSubscribers(n.Store))
 	return sb.String() == before
 }
